@@ -39,6 +39,11 @@ SEEDS = [
     "query A($A: Int) { A: a { ...A } hello(n: $A) } fragment A on A { A: id }",
     "{ ...None } fragment None on Query { num }",
     "query Query { ...Query } fragment Query on Query { Query: num }",
+    # a variable used in a directive *on a fragment definition*, in several definition orders
+    "query WithN($n: Int) { ...FN } query Other { num } fragment FN on Query @dq(n: $n) { num }",
+    "query Other { num } query WithN($n: Int) { ...FN color } fragment FN on Query @dq(n: $n, t: \"x\") { num }",
+    "fragment FN on Query @dq(n: $n) { num } query WithN($n: Int) { ...FN }",
+    "query A($n: Int) { ...FN } query B($t: Tag) { ...FT } fragment FT on Query @dq(t: $t) { color } fragment FN on Query @dq(n: $n) { num }",
 ]
 
 
